@@ -165,6 +165,8 @@ def make_request(path, size, mime, token, content):
     except ValueError:
         return None, line
     req.content = content
+    # what the LINE declares, kept apart from what the parser made of it: the oracle judges the request as written
+    req.vf_declared = {"token": token, "mime": mime if mime is not None else "text/gemini", "size": size}
     return req, line
 
 
@@ -200,11 +202,13 @@ def check_outcome(ctx, base, up, before, after, audit_events, req, status, cfg, 
         # for this check to say
         ctx.undecided("empty-token-against-configured-empty-token")
         return
+    decl = getattr(req, "vf_declared", None) or ({"token": req.token, "mime": req.mime_type, "size": req.size} if req is not None else {})
+    # (the token stays the parser's reading: with a parameter given twice, which one counts is not for this check to say)
     if cfg["tokens"] and (req is None or req.token not in cfg["tokens"]):
         authorised, why = False, "token"
-    elif req is not None and req.size > cfg["max_size"]:
+    elif req is not None and decl["size"] > cfg["max_size"]:
         authorised, why = False, "size"
-    elif req is not None and cfg["types"] and req.mime_type not in cfg["types"]:
+    elif req is not None and cfg["types"] and decl["mime"] not in cfg["types"]:
         authorised, why = False, "type"
     elif req is not None and req.size == 0 and not cfg["delete"]:
         authorised, why = False, "delete-disabled"
@@ -670,7 +674,7 @@ def run(ctx):
         if not cfg["types"]:
             continue
         for pspec in (PATHS[0], PATHS[1], PATHS[3]):
-            for mime in ("text/plainx", "text/plain.evil", "text/pla", "text", "text/plain+xml", "text/plain%20", "xtext/plain", "text/plain/extra"):
+            for mime in ("text/plainx", "text/plain.evil", "text/pla", "text", "text/plain+xml", "text/plain%20", "xtext/plain", "text/plain/extra", ""):
                 k += 1
                 if not ctx.mine(k):
                     continue
